@@ -354,7 +354,8 @@ def _check_lookup(case, out, stats, only=None):
             stats["transitions"] += 1
             stats["evaluations"] += 1
             ktail = "%s:%s%s" % (region, "same-unit" if qunit == tunit else "cross-unit", ":dup" if dup else "")
-            ctxt = "t=%s %s, get_sample_index(%r, %r)" % ([float(x) for x in times], tunit, arg if form == "str" else str(arg), policy)
+            ctxt = "t=%s %s, get_sample_index(%s, %r)" % ([float(x) for x in times], tunit,
+                                                          repr(arg) if form == "str" else "UnitValue(%r, %r)" % (v, qunit), policy)
             try:
                 got = tr.get_sample_index(arg, policy)
             except Exception as e:
@@ -368,8 +369,9 @@ def _check_lookup(case, out, stats, only=None):
             if got is not None:
                 got = int(got)
             if got in accept:
-                if len(accept) > 1 and not dup:
-                    stats["near_tie_exact_answer" if got == ref else "near_tie_other_answer"] += 1
+                if len(accept) > 1 and not dup and got != brute(policy, T, q * _tscale(tunit)):
+                    # informational: rounding of the unit conversion moved an on-boundary query to the other side
+                    stats["near_tie_not_lattice_answer"] += 1
                 continue
             if got is None:
                 cls = "none-but-sample-exists"
@@ -464,7 +466,7 @@ def _check_simulated(case, out, stats):
 
 # ---- one case --------------------------------------------------------------------------------------
 
-_STAT_KEYS = ("transitions", "evaluations", "near_tie", "near_tie_exact_answer", "near_tie_other_answer",
+_STAT_KEYS = ("transitions", "evaluations", "near_tie", "near_tie_not_lattice_answer",
               "dup_any_of_equal_times", "none_expected", "exact_ties_closest", "unknown_species_rejected",
               "simulated_shape_unexpected")
 
@@ -633,9 +635,8 @@ def _work(job):
     acc.add(transitions=stats["transitions"], evaluations=stats["evaluations"], nontrivial=nt)
     for k in _STAT_KEYS[2:]:
         if stats[k]:
-            acc.count("lookup_" + k if k in ("near_tie", "near_tie_exact_answer", "near_tie_other_answer",
-                                             "none_expected", "exact_ties_closest", "dup_any_of_equal_times") else k,
-                      stats[k])
+            acc.count("lookup_" + k if k in ("near_tie", "near_tie_not_lattice_answer", "none_expected",
+                                             "exact_ties_closest", "dup_any_of_equal_times") else k, stats[k])
     return acc.pack()
 
 
@@ -707,7 +708,8 @@ def run(ctx):
     ctx.assume("cell index of grid coordinates i = z*w*h + y*w + x (documentation/indexing.rst); exact SI scales of "
                "mc/ref/si.py; a query given in the storage unit, or equal to 0, needs no rounding; for any other query "
                "the unit conversion may round, so a query whose exact value lies within 1e-9 (relative) of a decision "
-               "boundary accepts the answers of both sides (counted as lookup_near_tie)")
+               "boundary accepts the answers of both sides (counted as lookup_near_tie); repr(float) is parsed back to "
+               "the same float")
 
 
 def replay(case):
